@@ -739,7 +739,7 @@ func checkStopOnDest(c *Ctx, e *Engine) {
 						// which context
 						if nn.Cond.Args[0].Val != nil {
 							if cl, ok := nn.Cond.Args[0].Val.(*ssa.Call); ok {
-								if ex, ok := c.P.Def(cl.Common().Value).(*ssa.Extract); ok {
+								if ex, ok := c.P.DefX(cl.Common().Value).(*ssa.Extract); ok {
 									if src, ok := ex.Tuple.(*ssa.Call); ok && src.Common().StaticCallee() != nil && src.Common().StaticCallee().String() == "context.WithCancel" {
 										okTest = true
 									}
@@ -751,9 +751,8 @@ func checkStopOnDest(c *Ctx, e *Engine) {
 			}
 			R.Check(okTest, "R06.5", e.Name+"#sender-cancel-test", s.Pos(), core.FuncName(g), "the sender re-tests its cancellable context before every send", "the sender does not test the cancellable context before sending: probes continue after the destination answered")
 		}
-		for _, r := range e.RecvSites {
-			g := r.Parent()
-			okCancel := false
+		// cancelsOnDest: in function g, a test of v.IsDest whose true branch calls the cancel function of a context.WithCancel
+		cancelsOnDest := func(g *ssa.Function, isV func(ssa.Value) bool) bool {
 			for _, b := range g.Blocks {
 				iff, ok := b.Instrs[len(b.Instrs)-1].(*ssa.If)
 				if !ok {
@@ -764,14 +763,59 @@ func checkStopOnDest(c *Ctx, e *Engine) {
 					continue
 				}
 				fa, ok := ld.X.(*ssa.FieldAddr)
-				if !ok || core.FieldName(fa) != "IsDest" || !valueFrom(fa.X, r, 0) {
+				if !ok || core.FieldName(fa) != "IsDest" || !isV(fa.X) {
 					continue
 				}
-				tb := b.Succs[0]
-				for _, in := range tb.Instrs {
+				for _, in := range b.Succs[0].Instrs {
 					if call, ok := in.(*ssa.Call); ok && call.Common().StaticCallee() == nil && !call.Common().IsInvoke() {
-						if ex, ok := c.P.Def(call.Common().Value).(*ssa.Extract); ok && ex.Index == 1 {
+						if ex, ok := c.P.DefX(call.Common().Value).(*ssa.Extract); ok && ex.Index == 1 {
 							if src, ok := ex.Tuple.(*ssa.Call); ok && src.Common().StaticCallee() != nil && src.Common().StaticCallee().String() == "context.WithCancel" {
+								return true
+							}
+						}
+					}
+				}
+			}
+			return false
+		}
+		cg := c.P.CallGraph()
+		for _, r := range e.RecvSites {
+			g := r.Parent()
+			okCancel := cancelsOnDest(g, func(v ssa.Value) bool { return valueFrom(v, r, 0) })
+			if !okCancel {
+				// the reply is handed to a callback / method that does it
+				for _, b := range g.Blocks {
+					for _, in := range b.Instrs {
+						call, ok := in.(*ssa.Call)
+						if !ok || call.Common().IsInvoke() {
+							continue
+						}
+						for ai, a := range call.Common().Args {
+							if !valueFrom(a, r, 0) {
+								continue
+							}
+							n := cg.Nodes[g]
+							if n == nil {
+								continue
+							}
+							all, any := true, false
+							for _, oe := range n.Out {
+								if oe.Site != ssa.CallInstruction(call) || oe.Callee.Func == nil {
+									continue
+								}
+								h := oe.Callee.Func
+								off := len(h.Params) - len(call.Common().Args)
+								if off < 0 || ai+off >= len(h.Params) {
+									all = false
+									continue
+								}
+								prm := h.Params[ai+off]
+								any = true
+								if !cancelsOnDest(h, func(v ssa.Value) bool { return v == ssa.Value(prm) }) {
+									all = false
+								}
+							}
+							if any && all {
 								okCancel = true
 							}
 						}
